@@ -11,7 +11,7 @@ use std::sync::atomic::Ordering as MemOrd;
 
 pub const BOUNDS: [f64; 2] = [0.25, 2.0];
 
-#[derive(Clone, Debug, PartialEq)]
+#[derive(Clone, Debug, PartialEq, serde::Serialize, serde::Deserialize)]
 pub enum HOp {
     Observe(f64),
     /// local histogram: observe each value, then flush once
@@ -21,14 +21,14 @@ pub enum HOp {
     ReadSum,
 }
 
-#[derive(Clone, Copy, Debug, PartialEq, Eq)]
+#[derive(Clone, Copy, Debug, PartialEq, Eq, serde::Serialize, serde::Deserialize)]
 pub enum Path {
     Direct,
     VecChild,
     Registry,
 }
 
-#[derive(Clone, Copy, Debug, PartialEq, Eq)]
+#[derive(Clone, Copy, Debug, PartialEq, Eq, serde::Serialize, serde::Deserialize)]
 pub enum Prop {
     C02,
     C03,
@@ -167,6 +167,10 @@ impl Driver for HistDriver {
             }
         }
         m
+    }
+
+    fn spec(&self) -> serde_json::Value {
+        serde_json::json!({"kind": "histogram", "label": self.label, "path": self.path, "prop": self.prop, "prelude": self.prelude, "programs": self.programs, "audit": self.audit})
     }
 
     fn check(&self, sh: &HistShared, x: &Execution) -> Result<String, (String, String)> {
@@ -485,6 +489,17 @@ pub fn hb_audit(steps: &[StepRec], n: usize, data: &HashSet<usize>, sync: &HashS
 }
 
 // ------------------------------------------------------------- driver sets
+
+pub fn driver_from_spec(v: &serde_json::Value) -> Option<HistDriver> {
+    Some(HistDriver {
+        label: v["label"].as_str()?.to_string(),
+        path: serde_json::from_value(v["path"].clone()).ok()?,
+        prop: serde_json::from_value(v["prop"].clone()).ok()?,
+        prelude: serde_json::from_value(v["prelude"].clone()).ok()?,
+        programs: serde_json::from_value(v["programs"].clone()).ok()?,
+        audit: v["audit"].as_bool().unwrap_or(true),
+    })
+}
 
 pub fn clone_driver(d: &HistDriver) -> HistDriver {
     HistDriver { label: d.label.clone(), path: d.path, prop: d.prop, prelude: d.prelude.clone(), programs: d.programs.clone(), audit: d.audit }
